@@ -322,6 +322,40 @@ def deep(v):
     return v
 
 
+def by_value_array(ty):
+    """does a value of this MIR type contain a whole GenericArray by value (i.e. not behind Box / & / raw pointer / Vec / PhantomData)?"""
+    t, out, i = ty, '', 0
+    while i < len(t):
+        m = re.match(r"(?:Box|Vec|PhantomData|NonNull|alloc::boxed::Box|std::boxed::Box)<", t[i:])
+        if m:      # skip the balanced <...>
+            d, j = 0, i + m.end() - 1
+            while j < len(t):
+                d += (t[j] == '<') - (t[j] == '>' and t[j - 1] != '-')
+                j += 1
+                if d == 0:
+                    break
+            i = j
+            continue
+        m = re.match(r"(?:&(?:'\w+ )?(?:mut )?|\*const |\*mut )", t[i:])
+        if m:      # the pointee of a reference / raw pointer: skip one type (up to the next top-level `,` / `>` / `)`)
+            d, j = 0, i + m.end()
+            while j < len(t):
+                if t[j] in '<([':
+                    d += 1
+                elif t[j] in '>)]' and t[j - 1] != '-':
+                    if d == 0:
+                        break
+                    d -= 1
+                elif t[j] == ',' and d == 0:
+                    break
+                j += 1
+            i = j
+            continue
+        out += t[i]
+        i += 1
+    return re.search(r'\bGenericArray<', out) is not None
+
+
 class Inconclusive(Exception):
     pass
 
@@ -405,6 +439,8 @@ class Exec:
         s.needs_drop = {}        # type param -> Bool
         s.self_binding = None    # for trait default bodies: what `Self` is ('GenericArray' / '&GenericArray' ...)
         s.unwind_edges = 0
+        s.heap_only = bool(os.environ.get('MIRSYM_HEAP_ONLY'))      # C15: the operation under analysis is a *boxed* constructor - no frame on its path may hold a whole array by value
+        s._frames_checked = set()
         s.consts = {}
         s.mir_text = None
         s.order = bool(os.environ.get('MIRSYM_ORDER'))      # C08: caller code is applied once per index, in index order
@@ -2270,6 +2306,15 @@ class Exec:
             st.blocks[blk] = 'boxed'
             st.events.append('Box::new_uninit -> %s' % blk.name)
             return R(BoxVal(BlockPtr(blk), init=False))
+        if re.match(r'Box::<GenericArray<.+, N>>::new$', c) and isinstance(args[0], Arr):
+            # Box::new(array): a fresh block that owns whatever the argument's slots owned (a move of the whole object)
+            st.calls += 1
+            blk = Block('H%d' % st.calls, Arr('Heap%d' % st.calls, args[0].len))
+            st.blocks[blk] = 'boxed'
+            st.status[blk.arr] = s.stat(st, args[0])
+            st.status[args[0]] = UNINIT
+            st.events.append('Box::new(%s) -> %s' % (args[0].name, blk.name))
+            return R(BoxVal(BlockPtr(blk), init=True))
         if re.match(r'Box::<MaybeUninit<GenericArray<T, N>>>::assume_init', c):
             b = args[0]
             a = b.ptr.block.arr
@@ -2830,6 +2875,16 @@ class Exec:
             args = [with_prov(a, 'mut' if t_.startswith('&mut ') else 'shared') if isinstance(a, _Ptr) and not isinstance(a, Ref) and a.prov is None and t_.startswith('&') and not t_.startswith('&raw') else a
                     for a, t_ in zip(args, fn.ptypes)]
         fr = {p: st.new_cell(a) for p, a in zip(fn.params, args)}
+        if s.heap_only and fn.name not in s._frames_checked:
+            # the frame of a function is laid out for all of its locals at once (dev profile: every MIR local has a slot), so reaching the
+            # function on a feasible path with a by-value array among its locals / arguments / return slot puts N * size_of::<T>() bytes on the stack
+            s._frames_checked.add(fn.name)
+            held = sorted((l, ty) for l, ty in fn.ltypes.items() if by_value_array(ty))
+            if held:
+                st.events.append('enter %s: local %s: %s' % (fn.name.split('>::')[-1], held[0][0], held[0][1]))
+                # ... for some array of at least 256 KiB (sizes consistent: size_of_array == N * size_of::<T>() without overflow)
+                big = z3.And(s.SZ == s.N * s.S, MULOK(s.N, s.S), UGE(s.SZ, bv(1 << 18)), ULT(s.SZ, bv(1 << 47))) if not is_int() else z3.And(s.SZ == s.N * s.S, s.SZ >= (1 << 18))
+                s.require(st, z3.Not(big), 'whole array (>= 256 KiB) held by value in a stack frame on the path of a boxed constructor', fn.name.split('>::')[-1] + ':frame')
         results, work = [], [(st, fr, 'bb0')]
         while work:
             st, fr, bb = work.pop()
